@@ -244,6 +244,7 @@ def run(ctx):
     samples = []
     nscn = ctx.pick(36, 400)
     seeds = ["0", "1", str(r.randrange(2, 1 << 30))]
+    shm_dirs = []
     try:
         # ---------------- seeds and -I: CLI subprocesses
         jobs, cases = [], []
@@ -258,15 +259,30 @@ def run(ctx):
                 out = "out_" + tag
                 os.makedirs(os.path.join(d, out), exist_ok=True)
                 jobs.append((d, argv_for(s, inp, out, oo, d, r), sd))
-            cases.append((d, s, inp, opts))
+            alt = None
+            if "*" in inp and os.path.isdir("/dev/shm"):
+                # "across environments": the same files, names and command line in a directory whose LISTING order is
+                # different (a tmpfs lists in reverse creation order; the files are created in reverse name order)
+                alt = tempfile.mkdtemp(prefix="c14_listing_", dir="/dev/shm")
+                shm_dirs.append(alt)
+                os.makedirs(os.path.join(alt, "in"))
+                for fn in sorted(os.listdir(os.path.join(d, "in")), reverse=(k % 2 == 0)):
+                    shutil.copy(os.path.join(d, "in", fn), os.path.join(alt, "in", fn))
+                os.makedirs(os.path.join(alt, "out_listing"))
+                jobs.append((alt, argv_for(s, inp, "out_listing", opts, alt, r), "0"))
+                dist["listing_order_pairs"] = dist.get("listing_order_pairs", 0) + 1
+            cases.append((d, s, inp, opts, alt))
         with ThreadPoolExecutor(max_workers=coqrun.JOBS) as ex:
             rcs = list(ex.map(lambda j: cli(*j), jobs))
         it = iter(rcs)
-        for d, s, inp, opts in cases:
+        for d, s, inp, opts, alt in cases:
             res = {}
             for tag in ["seed" + sd for sd in seeds] + ["interm"]:
                 rc, err = next(it)
                 res[tag] = (rc, err, canon(os.path.join(d, "out_" + tag)))
+            if alt is not None:
+                rc, err = next(it)
+                res["listing"] = (rc, err, canon(os.path.join(alt, "out_listing")))
             base_tag = "seed" + seeds[0]
             base = res[base_tag]
             desc = {"files": s.files, "freq": s.freq, "opts": opts}
@@ -277,8 +293,9 @@ def run(ctx):
             for tag, (rc, err, cn) in res.items():
                 if tag == base_tag:
                     continue
-                kind = "differs_with_intermediate_dumps" if tag == "interm" else "differs_between_hash_seeds"
-                dist["intermediate_pairs" if tag == "interm" else "seed_pairs"] += 1
+                kind = "differs_with_intermediate_dumps" if tag == "interm" else \
+                    "differs_with_directory_listing_order" if tag == "listing" else "differs_between_hash_seeds"
+                dist["intermediate_pairs" if tag == "interm" else "seed_pairs"] += (tag != "listing")
                 cn_cmp = {k: v for k, v in cn.items() if "_0" not in k[:0]}   # -I writes extra o_NN_stage files: ignore
                 cn_cmp = {k: v for k, v in cn.items() if k in base[2]}
                 if rc != base[0] or cn_cmp != base[2]:
@@ -370,6 +387,8 @@ def run(ctx):
                                                                            for k in kinds) else "other_scenario")}})
     finally:
         shutil.rmtree(work, ignore_errors=True)
+        for sd in shm_dirs:
+            shutil.rmtree(sd, ignore_errors=True)
 
     # ---------------- Coq-evaluated tie: real EventProcessor WITH intermediate= vs model WITHOUT the -I stages
     from props import c03
